@@ -215,6 +215,12 @@ def execute(n_per_ns, ops, rng):
     return model_ops, real_outs, open_ids, n_open, trad
 
 
+def _exec_one(g):
+    n_per_ns, ops = g
+    model_ops, real_outs, open_ids, n_open, trad = execute(n_per_ns, ops, None)
+    return (n_per_ns, ops, model_ops, real_outs, open_ids, n_open)
+
+
 def oracle(run, model_ops, outs, n_open, case):
     """the property itself, evaluated on the REAL outputs only"""
     sess = {}   # ctx -> dict(orig, delivered, status)
@@ -279,18 +285,15 @@ def oracle(run, model_ops, outs, n_open, case):
 
 def run(run):
     rng = run.rng
-    n = 40000 if run.thorough else 2500
+    n = 20000 if run.thorough else 3000
     run.rule = ('seeded random operation histories (3..18 ops: 6 Open ops + OpenQueryInstances probe, 3 Pull kinds, Close, '
                 'disable toggles, namespace removal; MaxObjectCount from {None,0,1,2,3,5,100,1000,negative}; result sets '
                 '0..13 (thorough: ..120) objects; stale/foreign/None contexts); a case is non-trivial when at least one '
                 'pull delivered objects; distinct = distinct (sizes, op list) JSON')
     run.assumptions += ['uuid4 context ids never repeat (model: counter)',
                         'result set handed to the model = the traditional operation run on the same real connection']
-    cases = []
-    for i in range(n):
-        n_per_ns, ops = gen_history(rng, run.thorough)
-        model_ops, real_outs, open_ids, n_open, trad = execute(n_per_ns, ops, rng)
-        cases.append((n_per_ns, ops, model_ops, real_outs, open_ids, n_open))
+    gens = [gen_history(rng, run.thorough) for i in range(n)]
+    cases = common.pmap(_exec_one, gens)
     # model side, one driver process
     reqs = []
     for (n_per_ns, ops, model_ops, real_outs, open_ids, n_open) in cases:
